@@ -14,6 +14,8 @@ import (
 	"bytes"
 	"context"
 	"fmt"
+	"io"
+	"net/http/httptest"
 	"strings"
 	"testing"
 )
@@ -91,8 +93,34 @@ func TestVerifReplayC12(t *testing.T) {
 			report("once", "a fresh context did not emit the script definition")
 		}
 	}
+	// requests through one CSS middleware are separate contexts: every request gets the same page
+	{
+		reg := ComponentCSSClass{ID: "reg_1", Class: SafeCSS(".reg_1{color:red;}")}
+		inl := ComponentCSSClass{ID: "inl_1", Class: SafeCSS(".inl_1{color:blue;}")}
+		page := ComponentFunc(func(ctx context.Context, w io.Writer) error {
+			if err := RenderCSSItems(ctx, w, reg, inl); err != nil {
+				return err
+			}
+			return RenderScriptItems(ctx, w, s1)
+		})
+		mw := NewCSSMiddleware(Handler(page), reg)
+		var first string
+		for i := 1; i <= 3; i++ {
+			rec := httptest.NewRecorder()
+			mw.ServeHTTP(rec, httptest.NewRequest("GET", "/", nil))
+			got := rec.Body.String()
+			if i == 1 {
+				first = got
+				if strings.Contains(got, string(reg.Class)) || !strings.Contains(got, string(inl.Class)) || !strings.Contains(got, s1.Function) {
+					report("contexts", fmt.Sprintf("behind NewCSSMiddleware(_, reg_1) a page using reg_1, inl_1 and script %s renders %q: the registered class must be left to the stylesheet, the other class and the script must be emitted", s1.Name, got))
+				}
+			} else if got != first {
+				report("contexts", fmt.Sprintf("request %d through the same CSS middleware renders %q but request 1 rendered %q: the registry of one request leaks into the next", i, got, first))
+			}
+		}
+	}
 	if len(seen) == 0 {
-		fmt.Println("REPLAY-NOT-REPRODUCED bounded search: 8 class item forms x 2 uses, 4 script call sequences, independent contexts")
+		fmt.Println("REPLAY-NOT-REPRODUCED bounded search: 8 class item forms x 2 uses, 4 script call sequences, independent contexts, 3 requests through one CSS middleware")
 	}
 }
 `
@@ -110,6 +138,9 @@ func replayC12(r *Run, o *Obligation) *ReplayResult {
 	want := "[once]"
 	if strings.Contains(o.Name, "renderCSSItemsToBuilder") && strings.Contains(o.Name, "C12-1") {
 		want = "[css-forms]"
+	}
+	if strings.Contains(o.Name, "CSSMiddleware") || strings.Contains(o.Name, "getContext") || strings.Contains(o.Name, "InitializeContext") {
+		want = "[contexts]"
 	}
 	for _, line := range strings.Split(out, "\n") {
 		if strings.Contains(line, "REPLAY-CONFIRMED "+want) {
